@@ -50,14 +50,14 @@ def read_enums():
 # ----------------------------------------------------------------------------------------------
 # C prototypes from contract / stub headers are the registry of C signatures
 
-PROTO_RE = re.compile(r'^(?P<throws>NIX_THROWS\s+)?(?P<ret>[A-Za-z_][\w ]*?[\w\*])\s+(?P<name>[A-Za-z_]\w*)\s*\((?P<params>[^()]*)\)\s*$', re.M)
+PROTO_RE = re.compile(r'^(?P<throws>NIX_THROWS\s+)?(?P<ret>[A-Za-z_][\w ]*?)\s*(?P<ptr>\*+)?\s*\b(?P<name>[A-Za-z_]\w*)\s*\((?P<params>[^()]*)\)\s*$', re.M)
 
 def parse_protos(text):
     sigs = {}
     text = strip_comments(text)
     # prototypes are written on one line, optionally followed by contract clauses on next lines
     for m in PROTO_RE.finditer(text):
-        ret = m.group('ret').strip()
+        ret = m.group('ret').strip() + (' ' + m.group('ptr') if m.group('ptr') else '')
         if ret.split()[0] in ('return', 'typedef', 'else', 'define', '#define', 'struct') or ret.startswith('#'):
             continue
         ret = re.sub(r'^(static|inline|extern)\s+', '', ret)
@@ -148,13 +148,26 @@ def extract(unit, enums, sigs):
     tail = src[p_close + 1:b_open]
     is_const_member = bool(re.search(r'\bconst\b', tail))
     body_toks = tokenize(src[b_open:b_close + 1])
+    init_toks = []
+    mi = re.match(r'\s*:(?!:)', tail)
+    if mi:
+        init_toks = tokenize(tail[mi.end():])
 
+    # object-like macro aliases of the form '#define nd_copy std::copy_n' are expanded as the preprocessor would
+    aliases = dict(re.findall(r'^[ \t]*#[ \t]*define[ \t]+(\w+)[ \t]+(?:std::)(\w+)[ \t]*$', src, re.M))
     def pre(toks):
+        for t in toks:
+            if t.k == 'id' and t.t in aliases:
+                t.t = aliases[t.t]; fire(ctx, 'macro-alias')
         toks = r_qualifiers(ctx, toks)
         toks = r_types(ctx, toks)
         toks = r_casts(ctx, toks)
         toks = r_enums(ctx, toks)
         toks = r_misc(ctx, toks)
+        sub = unit.get('subst') or {}
+        for t in toks:
+            if t.k == 'id' and t.t in sub:
+                t.t = sub[t.t]; fire(ctx, 'template-subst')
         return toks
 
     # ---- signature ----
@@ -179,7 +192,10 @@ def extract(unit, enums, sigs):
     ret_toks = [t for t in rt[:k] if t.t not in ('inline', 'static', 'virtual', 'NIXAPI', 'explicit', 'constexpr')]
     ret_c = render(ret_toks).strip()
     ret_c = re.sub(r'\s+', ' ', ret_c)
-    if ret_c.endswith('&'):
+    if not ret_c and rt[name_i].t == 'operator' and name_i + 1 < len(rt) and rt[name_i + 1].k == 'id':
+        ret_c = rt[name_i + 1].t                      # conversion operator
+    ret_is_ref = ret_c.endswith('&')
+    if ret_is_ref:
         ret_c = ret_c[:-1].strip() + ' *'
     if unit.get('ctor'):
         ret_c = 'void'
@@ -211,7 +227,7 @@ def extract(unit, enums, sigs):
         if ref and bty in ('double', 'ndsize_t', 'size_t', 'bool', 'int'):
             ctx.env[nm.t] = (bty, 'param')
         else:
-            ctx.env[nm.t] = (bty.replace(' *', '').replace('*', '').strip(), ref)
+            ctx.env[nm.t] = (bty.replace(' *', '').replace('*', '').strip(), ref or ptr)
     def cparam(p):
         bty, nm, ref, cst = p
         if '*' in bty:
@@ -224,24 +240,31 @@ def extract(unit, enums, sigs):
 
     # ---- body ----
     toks = pre(body_toks)
+    if init_toks:
+        toks = [toks[0]] + r_ctor_init(ctx, pre(init_toks)) + toks[1:]
     for rule in unit.get('pre_rules', []):
         toks = rule(ctx, toks)
     toks = r_rangefor(ctx, toks)
     scan_decls(ctx, toks)
     # member access
     if cls:
-        funcs, datas = class_members(unit['cls_file'], cls)
+        funcs, datas = class_members(unit['cls_file'], unit.get('cls_decl', cls))
         toks = r_members(ctx, toks, cls, funcs, datas)
+    toks = r_local_refs(ctx, toks)
     toks = r_opcalls(ctx, toks)
     toks = r_methods(ctx, toks)
+    toks = r_methods(ctx, toks)      # second pass: methods on call results  f(...).g(...)
     toks = r_class_ops(ctx, toks)
     toks = r_optionals(ctx, toks)
     toks = r_vectors(ctx, toks)
     toks = r_refs(ctx, toks)
     toks = r_pair_ctor(ctx, toks)
     toks = r_calls(ctx, toks)
+    if ret_is_ref:
+        toks = r_return_ref(ctx, toks)
+    toks = r_return_copy(ctx, toks, ret_c)
     toks = r_throw(ctx, toks)
-    toks = r_maythrow_calls(ctx, toks)
+    toks = r_hoist_throws(ctx, toks)
     for rule in unit.get('post_rules', []):
         toks = rule(ctx, toks)
     body = render(toks)
@@ -276,6 +299,9 @@ def r_members(ctx, toks, cls, funcs, datas):
     while i < n:
         t = toks[i]
         prev = out[-1].t if out else ''
+        if t.t == 'this' and i + 2 < n and toks[i + 1].t == '->' and toks[i + 2].k == 'id' and toks[i + 2].t in datas \
+                and not (i + 3 < n and toks[i + 3].t == '('):
+            out.extend([I('self', t.ws), P('->', ''), Tok('id', toks[i + 2].t, '')]); i += 3; fire(ctx, 'this->member'); continue
         if t.t == 'this' and i + 1 < n and toks[i + 1].t == '->':
             i += 2; fire(ctx, 'this->'); continue     # falls through to bare member handling
         if t.t == '*' and i + 1 < n and toks[i + 1].t == 'this':
